@@ -119,6 +119,14 @@ def main():
             if blk.startswith('Axioms:'):
                 ctx['notes'].append('axioms printed: ' + blk[:400])
 
+    # thorough: independent re-check of the compiled cone with coqchk, axioms listed
+    coqchk_report = None
+    if tier == 'thorough' and ok_build:
+        pr = subprocess.run(['timeout', '1800', 'coqchk', '-silent', '-o', '-Q', lib.COQ, 'BE', f'BE.Props.{prop}'], capture_output=True, text=True)
+        coqchk_report = (pr.stdout + pr.stderr)[-1500:]
+        if pr.returncode != 0:
+            broken.append(dict(kind='proof', what='coqchk rejects the compiled cone', detail=coqchk_report))
+
     # 3+4 correspondence and oracle
     try:
         r = mod.run(ctx)
@@ -179,6 +187,7 @@ def main():
         assumptions_printed=assumptions,
         proof_cone=cone, generated_files=gen_msgs,
         broken=[dict(kind=b['kind'], what=b['what']) for b in broken],
+        coqchk=coqchk_report,
     )
     for k, v in res.items():
         if k not in cov and k not in ('violations', 'tie_mismatches'):
